@@ -79,6 +79,18 @@ CLAIMED = {
                 "scan: only a bounded run of the real pipeline over a statement grammar (55 programs) covers it, not counted.",
         "note": "Partial: mechanisms of the scan, not exactness for every Fortran statement form.",
     },
+    "C04": {
+        "engines": ["A", "Bd"],
+        "technique": "contract-based deductive verification: block contracts on the default-accessibility state machine of FortranContainer.__init__ and on the per-entity "
+                     "merge of access statements in process_attribs, a contract on the FortranProcedure.permission property, call-site obligations on every child "
+                     "constructor's permission argument; VCs from the ASTs, z3",
+        "text": "Proved for every parser state: a bare access statement sets the default for what follows (components and bindings of a type tracked separately, the type's own "
+                "accessibility untouched, binding default reset at CONTAINS), outside types the children's default equals the unit's accessibility; the last access "
+                "statement naming an entity wins and nobody else's accessibility changes; interface procedures take their interface's accessibility; every child "
+                "constructor receives the tracked value. Attribute parsing on declarations is covered by an exhaustive run of the stated product on the real parser "
+                "(bounded stand-in, not counted). Known finding: late bare access statements.",
+        "note": "The known finding C04-late-default is a genuine deviation that is recorded, not repaired.",
+    },
 }
 _NB = "no obligations built yet for this property in the current commit (planned in DESIGN.md section 6; technique not switched)"
-NOT_APPLICABLE = {p: _NB for p in ["C03", "C04", "C09", "C11", "C12", "C13", "C15", "C16", "C17", "C18", "C19", "C20"]}
+NOT_APPLICABLE = {p: _NB for p in ["C03", "C09", "C11", "C12", "C13", "C15", "C16", "C17", "C18", "C19", "C20"]}
